@@ -266,7 +266,7 @@ class SArr(PyObj):
             elif isinstance(k, SArr) and len(k.shape_) == 1:
                 axes.append(('mask', k.snapshot()))
             else:
-                raise Undecided("array index kind %s" % type(k).__name__)
+                raise Undecided("array index kind %s (%r) at line %s" % (type(k).__name__, k, getattr(ctx, "cur_line", "?")))
         return axes
 
     def _grid_key(self, key):
